@@ -456,6 +456,27 @@ func (m *model) Apply(ev string) string {
 	if capture {
 		m.post = m.fx.snap()
 	}
+	// a write that was accepted must have had the effect the reference expects; otherwise the path has diverged
+	// (reported by Check at this call) and is not extended
+	if (kind == "Propose" || kind == "Confirm" || kind == "Reject") && rp.class == "ok" && !m.diverged {
+		sn := m.post
+		if !capture {
+			sn = m.fx.snap()
+		}
+		want := []string{"fund", "gen"}
+		for l := range m.ref.sealed {
+			want = append(want, l)
+		}
+		sort.Strings(want)
+		var aw []string
+		for l := range m.ref.awaiting {
+			aw = append(aw, l)
+		}
+		sort.Strings(aw)
+		if strings.Join(want, " ") != strings.Join(sn.ledger, " ") || strings.Join(aw, " ") != strings.Join(sn.trxs, " ") {
+			m.diverged = true
+		}
+	}
 	return rp.class
 }
 
